@@ -83,6 +83,10 @@ pub struct Case {
     pub drain: bool,
     /// drain phase closes these sides if the application has not (C03)
     pub close_in_drain: [bool; 2],
+    /// the drain advances time like the shipped session does: 5 ms at a
+    /// time, with deliveries in between (instead of one step per RTO)
+    #[serde(default)]
+    pub fine_ticks: bool,
     pub ops: Vec<Op>,
 }
 
@@ -1200,12 +1204,31 @@ impl<'a> World<'a> {
                 break;
             }
             used += 1;
-            for s in 0..2 {
-                self.now_ms += (RTO_MS + 1) as u64 / 2;
-                self.tick(s, RTO_MS + 1);
+            if self.case.fine_ticks {
+                // one RTO round in 5 ms steps; whatever an endpoint emits in
+                // between (acknowledgments of the peer's retransmissions)
+                // travels at once
+                for _ in 0..21 {
+                    for s in 0..2 {
+                        self.tick(s, 5);
+                    }
+                    self.now_ms += 5;
+                    self.deliver_all();
+                    if self.dead {
+                        return;
+                    }
+                }
+            } else {
+                for s in 0..2 {
+                    self.now_ms += (RTO_MS + 1) as u64 / 2;
+                    self.tick(s, RTO_MS + 1);
+                }
             }
         }
         self.out.add("drain_rounds_used", used);
+        if self.case.fine_ticks {
+            self.out.count("probe_fine_tick_drain");
+        }
         if self.dead {
             return;
         }
@@ -1539,6 +1562,7 @@ pub fn generate(seed: u64, kind: Kind, opts: &RunOpts) -> Case {
         eager: [!rng.chance(1, 4), !rng.chance(1, 4)],
         drain: true,
         close_in_drain: [false, false],
+        fine_ticks: rng.chance(1, 2),
         ops: vec![],
     };
     if kind == Kind::C12 {
